@@ -2187,6 +2187,7 @@ func (s *swamp) CreateTreasure(key string) treasure.Treasure {
 }
 
 func (s *swamp) SaveFunction(t treasure.Treasure, guardID guard.ID) treasure.TreasureStatus {
+	verifhook.Point("swamp.save.underGuard")
 
 	// set the last interaction time to the current time
 	atomic.StoreInt64(&s.lastInteractionTime, time.Now().UnixNano())
@@ -3052,6 +3053,7 @@ func (s *swamp) deleteHandler(key string, shadowDelete bool) (deletedTreasure tr
 	if s.beaconKey.Get(key) != treasureObj {
 		return nil
 	}
+	verifhook.Point("swamp.delete.underGuard")
 
 	// Még változtatás előtt lemásoljuk a Treasure-t, hogy egy clone-t készíthessünk róla, hogy a törölt treasure-t minden
 	// adatával együtt vissza tudjuk adni.
